@@ -351,6 +351,12 @@ def make_r_fmt(disp="vfmt_disp", lit="vfmt_lit", hex2="vfmt_hex2_upper", wmap=No
             m = re.search(r"\.(?:write_str|push_str)\(\s*&?\s*(\w+)\s*\)", text)
             if m and m.group(1) in tainted:
                 raise Unsupported("literal text reaches the writer through the local `%s` (chosen earlier, written later): outside the event abstraction's reach" % m.group(1))
+        # `w.write_str("lit").unwrap()` (fmt::Write): the same literal write as `write!(w, "lit").unwrap()`
+        def _ws(m):
+            ww = wmap(m.group(1)) if wmap else m.group(1)
+            ctx.app("R-fmt", "%s.write_str(%s).unwrap()" % (m.group(1), m.group(2)[:40]), "%s(%s, %s)" % (lit, ww, m.group(2)[:40]))
+            return "%s(%s, %s)" % (lit, ww, m.group(2))
+        text = re.sub(r'\b(\w+)\.write_str\(\s*("(?:[^"\\]|\\.)*")\s*\)\s*\.unwrap\(\)', _ws, text)
         while True:
             toks = rl.lex(text)
             code = rl.code_toks(toks)
